@@ -5,7 +5,9 @@ NAMES = ['contracts.common', 'contracts.names', 'contracts.pybind']
 PROOFS = {
     'C03': ['PybindWrapper._gen_module_var', 'PybindWrapper._add_namespaces', 'PybindWrapper._partial_match',
             'PybindWrapper.wrap_ctors', 'PybindWrapper._wrap_dunder', 'PybindWrapper.wrap_dunder_methods',
-            'PybindWrapper.wrap_properties', 'PybindWrapper.wrap_operators', 'PybindWrapper.wrap_variable'],
+            'PybindWrapper.wrap_properties', 'PybindWrapper.wrap_operators', 'PybindWrapper.wrap_variable',
+            'Enum.namespaces', 'Enum.cpp_typename', 'PybindWrapper.wrap_enum', 'PybindWrapper.wrap_enums',
+            'PybindWrapper.wrap_instantiated_declaration'],
     'C04': ['PybindWrapper._py_args_names', 'PybindWrapper._method_args_signature', 'ArgumentList.list', 'ArgumentList.names',
             'ArgumentList.to_cpp', 'ArgumentList.__len__', 'ReturnType.is_void', 'Method.to_cpp', 'StaticMethod.to_cpp',
             'InstantiatedMethod.to_cpp', 'InstantiatedStaticMethod.to_cpp', 'InstantiatedGlobalFunction.to_cpp',
